@@ -351,3 +351,30 @@ Fixpoint dfs_e (fuel : nat) (s : source) (fs : list filter) (limit : Z)
 
 Definition find_roots_e (fuel : nat) (s : source) (fs : list filter) (limit : Z) (node : desc) (k : nat) : result :=
   dfs_e fuel s fs limit [(node, O)] [] [] k.
+
+(* ------------------------------------------------------------------ the call sequence
+   The same loop, also recording on which nodes opts.FindPredecessors was called, in call order
+   (an intermediate observable: the harness records the calls that reach the source). *)
+Fixpoint dfs_log (fuel : nat) (fp : nat -> list desc) (limit : Z)
+         (stack : list frame) (visited : list nat) (roots : list desc) (calls : list nat)
+  : option (list desc * list nat) :=
+  match fuel with
+  | O => None
+  | S fuel' =>
+    match stack with
+    | [] => Some (roots, rev calls)
+    | (cur, d) :: rest =>
+      if mem (d_id cur) visited then dfs_log fuel' fp limit rest visited roots calls
+      else
+        let visited' := d_id cur :: visited in
+        if ((0 <? limit)%Z && (Z.of_nat d =? limit)%Z)%bool
+        then dfs_log fuel' fp limit rest visited' (add_root cur roots) calls
+        else match fp (d_id cur) with
+             | [] => dfs_log fuel' fp limit rest visited' (add_root cur roots) (d_id cur :: calls)
+             | ps => dfs_log fuel' fp limit (push_preds ps (S d) visited' rest) visited' roots (d_id cur :: calls)
+             end
+    end
+  end.
+
+Definition find_roots_log (fuel : nat) (s : source) (fs : list filter) (limit : Z) (node : desc) :=
+  dfs_log fuel (find_preds s fs) limit [(node, O)] [] [] [].
